@@ -245,7 +245,12 @@ func (p *parser) parseDir() *dir {
 			break
 		}
 	}
-	d.ch = unicode.ToUpper(need())
+	d.ch = need()
+	if d.ch >= 0x80 {
+		// only ASCII letters name directives (unicode.ToUpper turns the long s into S)
+		bad("directive ~%c is outside the model", d.ch)
+	}
+	d.ch = unicode.ToUpper(d.ch)
 	if !strings.ContainsRune("ASDBOXRC%|~&T*?()[]{}^P;", d.ch) {
 		bad("directive ~%c is outside the model", d.ch)
 	}
